@@ -206,6 +206,35 @@ func TestVerifC04Oversized(t *testing.T) {
 			r.Violate("signature-change/"+sp.name, fmt.Sprintf("%s -> %s: %s, yet sfw diff reports %s as preserved (fingerprint_match=%v, added=%v removed=%v)", sp.old, sp.new, sp.why, fd.Function, fd.FingerprintMatch, fd.AddedOps, fd.RemovedOps), map[string]interface{}{"pair": sp.name})
 		}
 	}
+	// the method a DEFERRED / SPAWNED interface call invokes changes (the receiver is a parameter)
+	ifaceDecl := "type wr interface {\n\tClose()\n\tFlush()\n}\n\n"
+	for i, ip := range []struct{ name, old, new string }{
+		{"defer-invoke", "func F(w wr, a int) int {\n\tdefer w.Close()\n\treturn a + 1\n}", "func F(w wr, a int) int {\n\tdefer w.Flush()\n\treturn a + 1\n}"},
+		{"go-invoke", "func F(w wr, a int) int {\n\tgo w.Close()\n\treturn a + 1\n}", "func F(w wr, a int) int {\n\tgo w.Flush()\n\treturn a + 1\n}"},
+		{"call-invoke", "func F(w wr, a int) int {\n\tw.Close()\n\treturn a + 1\n}", "func F(w wr, a int) int {\n\tw.Flush()\n\treturn a + 1\n}"},
+	} {
+		if !vh.Mine(i) {
+			continue
+		}
+		d := filepath.Join(scratch, "iface-"+ip.name)
+		os.MkdirAll(filepath.Join(d, "o"), 0o755)
+		os.MkdirAll(filepath.Join(d, "n"), 0o755)
+		op, np := filepath.Join(d, "o", "f.go"), filepath.Join(d, "n", "f.go")
+		os.WriteFile(op, []byte("package sample\n\n"+ifaceDecl+ip.old+"\n"), 0o644)
+		os.WriteFile(np, []byte("package sample\n\n"+ifaceDecl+ip.new+"\n"), 0o644)
+		out, err := ComputeDiff(RealFileSystem{}, op, np)
+		r.Eval()
+		if err != nil {
+			r.Fail("ComputeDiff(%s): %v", ip.name, err)
+			return
+		}
+		r.Nontrivial("callee-swap/" + ip.name)
+		for _, fd := range out.Functions {
+			if fd.Function == "F" && fd.Status == "preserved" {
+				r.Violate("callee-swap/"+ip.name, fmt.Sprintf("%s -> %s: another method of the interface is invoked, yet sfw diff reports F as preserved (fingerprint_match=%v)", ip.old, ip.new, fd.FingerprintMatch), map[string]interface{}{"pair": ip.name})
+			}
+		}
+	}
 	// a callee swapped for the function of the same NAME in a package of the same NAME at another
 	// import path (two local packages "auth"; math/rand and crypto/rand; text/ and html/template):
 	// the call site reads the same, only the import changes
